@@ -1254,6 +1254,10 @@ func collectTextNodes(parent *Inline, r *inlineByteReader, end int, textKind Inl
 					}
 					plainStart = r.pos
 				}
+				if r.pos >= end {
+					// The backslash was the last byte: don't read past the end.
+					continue
+				}
 			case '&':
 				if end := parseCharacterEscape(r.remainingNodeBytes()); end >= 0 {
 					if r.pos > plainStart {
